@@ -3,8 +3,8 @@
    `cut_of` with entries in the place of ids and "the text of the file parses to" in the place
    of "the content of the file is". *)
 From Coq Require Import List NArith Bool Sorting.Sorted.
-From Okv Require Import Model.Syntax Model.Glob Model.GlobSpec Model.Load Model.LoadSpec Model.ParseLedger
-     Model.Pipeline.
+From Okv Require Import Model.Syntax Model.Comb Model.Glob Model.GlobSpec Model.Load Model.LoadSpec Model.ParseLedger
+     Model.Pipeline Proofs.ParseLines.
 Import ListNotations.
 Open Scope N_scope.
 
@@ -50,3 +50,19 @@ Definition entry_at (fs : tfs) (x : path * N) : option parsed_entry :=
   | None => None
   | Some text => nth_error (parsed_of text) (N.to_nat (snd x))
   end.
+
+(* what a delivered entry must carry for a diagnostic to name the right place: l_path is a
+   file of the file system, l_parsed is the l_index-th entry the parser yields on its text and
+   is not an include, its span is exactly a slice [mid] of that text, and its line_start is 1 +
+   the number of line feeds before that slice *)
+Definition placed (fs : tfs) (l : loaded) : Prop :=
+  exists text pre mid post,
+    tlookup (l_path l) fs = Some text /\
+    nth_error (result_entries (parse_ledger text)) (N.to_nat (l_index l)) = Some (l_parsed l) /\
+    is_include (e_entry (l_parsed l)) = false /\
+    text = pre ++ mid ++ post /\
+    e_span (l_parsed l) = (utf8_len pre, utf8_len pre + utf8_len mid) /\
+    e_line_start (l_parsed l) = 1 + count_lf pre.
+
+(* no include among the entries: a ledger in one file *)
+Definition no_includes (es : list s_entry) : Prop := forall w, ~ In (SInclude w) es.
